@@ -409,7 +409,11 @@ ZOO = [
 def gen_doc(rnd, t, spec, anygen=None):
     """A document value valid for type t (the Deserializer's input form); untyped positions are filled by anygen."""
     k = t[0]
-    anyval = anygen or (lambda: copy.deepcopy(rnd.choice(JSON_NESTS)) if rnd.random() < 0.45 else gen_anyval(rnd, 1))
+    def anyval():
+        if anygen is not None:
+            return anygen()
+        v = copy.deepcopy(rnd.choice(JSON_NESTS)) if rnd.random() < 0.45 else gen_anyval(rnd, 1)
+        return 0 if v is None else v          # None at the top of a required field means "absent"
     if k == "int":
         return rnd.choice([0, 1, 7, -3, 12])
     if k == "str":
@@ -888,6 +892,7 @@ def run_field_op(op, spec, doc, rnd=None, extra=None):
     elif op in ("ser", "ser-fn", "ser-mapper", "ser-fast"):
         x = cls(**kwargs_of(spec, ns, doc))
         ref = copy.deepcopy(x)
+        fp_before = inst_fp(x, ref)
         keymap = {f: f for f, _ in spec.fields}
         try:
             if op == "ser":
@@ -912,6 +917,8 @@ def run_field_op(op, spec, doc, rnd=None, extra=None):
             return None, [], src
         parts = {f: r[keymap[f]] for f in keymap if keymap[f] in r}
         fp = lambda: inst_fp(x, ref)
+        if fp() != fp_before:         # the instance is the argument of a serialization
+            extras.append(("writes-arg/%s/instance" % site_of(op, spec.kind), "serializing changed the observable state of the instance"))
         hits = probe(parts, fp, ts, spec)
         for f, paths in hits.items():
             res[f][2] = True
